@@ -517,3 +517,72 @@ Definition chk_fileflag (c : rawcase) : float :=
                       match d_X d with Some (Some v) => v | _ => nan end; kc] (lnth (out c) 0)
   | Err e => dev_exact (err_code e) (fnth (lnth (out c) 0) 0)
   end.
+
+(* ================= one public setter call on a StoG object, from the implementation's own pre-state (C19) =================
+   zs = [op; ia; ib; fn; lowq; lorch; has_cutoff; has_qmin; has_qmax; tgr; tgrft; tgrl; tf0..tf4; files_present; stem;   (0..18)
+         pre merge  hasY hasYs hasYo hasF Fnn hasFs hasFo;   (19..25)
+         op merge   hasY hasYs hasYo hasF Fnn hasFs hasFo;   (26..32)
+         n_pre_files; pre_files...; n_op_files; op_files...]  (33..)
+   sc = [v; rmin; rmax; rdelta; rho; bcoh; btot; cutoff; qmin; qmax; xmin; xmax; pre Ys Yo Fs Fo; op Ys Yo Fs Fo]
+   fl = [pre_dr; op_dr]
+   out = [[status; fn; rmin; rmax; rdelta; rho; bcoh; btot; lowq; lorch; has_cutoff; cutoff; has_qmin; qmin; has_qmax; qmax;
+           yscale; yoffset; hasF; Fnn; hasFs; Fs; hasFo; Fo; tgr; tgrft; tgrl; tf0..tf4; files_present; stem; xmin; xmax];
+          post_dr; post_files]
+   op: 0 rmin 1 rmax 2 rdelta 3 dr 4 density 5 bcoh 6 btot 7 low_q_correction 8 lorch_flag 9 cutoff 10 merged_opts 11 qmin 12 qmax
+       13 real_space_function 14 gr_title 15 gr_ft_title 16 gr_lorch_title 17 one of the five fixed titles 18 files 19 append_file
+       20 extend_file_list 21 stem_name 22 xmin 23 xmax *)
+From PyStoG Require Import SettersM.
+Definition mopts_of (z : list Z) (s : list float) (zo so : nat) : @mopts float :=
+  {| m_Y := if zb (znth z zo) then Some {| o_scale := fopt (znth z (zo + 1)) (fnth s so); o_offset := fopt (znth z (zo + 2)) (fnth s (so + 1)) |} else None;
+     m_F := if zb (znth z (zo + 3)) then Some (if zb (znth z (zo + 4)) then Some {| o_scale := fopt (znth z (zo + 5)) (fnth s (so + 2)); o_offset := fopt (znth z (zo + 6)) (fnth s (so + 3)) |} else None) else None |}.
+Definition flag_of_z (z : Z) : flagv := match z with 1%Z => FlagBool false | 2%Z => FlagBool true | _ => FlagOther end.
+Definition serr_code (e : option serr) : float :=
+  match e with None => 0%float | Some SValueError => 1%float | Some STypeError => 2%float | Some SAttributeError => 4%float end.
+Definition nat2f (n : nat) : float := of_ZF (Z.of_nat n).
+Definition chk_setters (c : rawcase) : float :=
+  let z := zs c in let s := sc c in let f := fl c in
+  let npre := Z.to_nat (znth z 33) in
+  let pre_files := map Z.to_nat (firstn npre (skipn 34 z)) in
+  let nop := Z.to_nat (znth z (34 + npre)) in
+  let op_files := map Z.to_nat (firstn nop (skipn (35 + npre) z)) in
+  let st := {| st_fn := gfun_of (znth z 3); st_rmin := fnth s 1; st_rmax := fnth s 2; st_rdelta := fnth s 3; st_rho := fnth s 4;
+               st_bcoh := fnth s 5; st_btot := fnth s 6; st_lowq := zb (znth z 4); st_lorch := zb (znth z 5);
+               st_cutoff := fopt (znth z 6) (fnth s 7); st_merge := mopts_of z s 19 12;
+               st_qmin := fopt (znth z 7) (fnth s 8); st_qmax := fopt (znth z 8) (fnth s 9) |} in
+  let o := {| o_st := st; o_dr := lnth f 0;
+              o_tgr := Z.to_nat (znth z 9); o_tgrft := Z.to_nat (znth z 10); o_tgrl := Z.to_nat (znth z 11);
+              o_tfix := map Z.to_nat [znth z 12; znth z 13; znth z 14; znth z 15; znth z 16];
+              o_files := if zb (znth z 17) then Some pre_files else None; o_stem := Z.to_nat (znth z 18);
+              o_xmin := fnth s 10; o_xmax := fnth s 11 |} in
+  let v := fnth s 0 in let ia := znth z 1 in let ib := znth z 2 in
+  let p := match znth z 0 with
+           | 0%Z => SRmin v | 1%Z => SRmax v | 2%Z => SRdelta v | 3%Z => SDr (lnth f 1)
+           | 4%Z => SRho v | 5%Z => SBcoh v | 6%Z => SBtot v
+           | 7%Z => SLowq (flag_of_z ia) | 8%Z => SLorch (flag_of_z ia)
+           | 9%Z => SCutoff (fopt ia v) | 10%Z => SMerge (mopts_of z s 26 16)
+           | 11%Z => SQmin (fopt ia v) | 12%Z => SQmax (fopt ia v)
+           | 13%Z => SFn (fnv_of ia)
+           | 14%Z => STgr (Z.to_nat ia) | 15%Z => STgrft (Z.to_nat ia) | 16%Z => STgrl (Z.to_nat ia)
+           | 17%Z => STfix (Z.to_nat ia) (Z.to_nat ib)
+           | 18%Z => SFiles (if zb ia then Some op_files else None)
+           | 19%Z => SAppend (Z.to_nat ia) | 20%Z => SExtend op_files
+           | 21%Z => SStem (Z.to_nat ia) | 22%Z => SXmin v | _ => SXmax v
+           end in
+  let '(o', e) := sstep o p in
+  let t := o_st o' in let m := st_merge t in let fo := f_opts m in
+  let want := [serr_code e; fn_code (st_fn t); st_rmin t; st_rmax t; st_rdelta t; st_rho t; st_bcoh t; st_btot t;
+               b2f (st_lowq t); b2f (st_lorch t);
+               b2f (match st_cutoff t with Some _ => true | None => false end); opt_or (st_cutoff t) 0%float;
+               b2f (match st_qmin t with Some _ => true | None => false end); opt_or (st_qmin t) 0%float;
+               b2f (match st_qmax t with Some _ => true | None => false end); opt_or (st_qmax t) 0%float;
+               merged_yscale m; merged_yoffset m;
+               b2f (match m_F m with Some _ => true | None => false end);
+               b2f (match m_F m with Some (Some _) => true | _ => false end);
+               b2f (match o_scale fo with Some _ => true | None => false end); opt_or (o_scale fo) 0%float;
+               b2f (match o_offset fo with Some _ => true | None => false end); opt_or (o_offset fo) 0%float;
+               nat2f (o_tgr o'); nat2f (o_tgrft o'); nat2f (o_tgrl o')]
+              ++ map nat2f (o_tfix o')
+              ++ [b2f (match o_files o' with Some _ => true | None => false end); nat2f (o_stem o'); o_xmin o'; o_xmax o'] in
+  fmax (devs dev_exact want (lnth (out c) 0))
+       (fmax (devs dev_exact (o_dr o') (lnth (out c) 1))
+             (devs dev_exact (map nat2f (match o_files o' with Some l => l | None => [] end)) (lnth (out c) 2))).
